@@ -28,6 +28,8 @@ static inline void* sim_alloc(std::size_t n)
         sim::c_alloc_fired++;
         throw std::bad_alloc();
     }
+    if (sim::alloc_hook() && sim::fctl().window)
+        sim::alloc_hook()();
     void* p = std::malloc(n ? n : 1);
     if (!p)
         throw std::bad_alloc();
@@ -608,6 +610,19 @@ int sim_main(int argc, char** argv, Engine& e)
         if (cfg.prop.empty())
             cfg.prop = r.prop;
         cfg.tier = r.tier.empty() ? cfg.tier : r.tier;
+        if (r.is_range)
+        {
+            // re-execute runs from..to of that batch seed in this fresh process
+            a.kv.erase("replay");
+            a.kv["range-mode"] = "1";
+            a.kv["from"] = std::to_string(r.range_from);
+            a.kv["to"] = std::to_string(r.range_to + 1);
+            a.kv["seed"] = std::to_string(r.seed);
+            a.kv["expect-class"] = r.expect.cls;
+            a.kv["expect-sig"] = r.expect.sig;
+            cfg.batch_seed = r.seed;
+            goto batch;
+        }
         alarm(60);
         Outcome o = e.execute(r.plan, cfg);
         alarm(0);
@@ -653,7 +668,9 @@ int sim_main(int argc, char** argv, Engine& e)
                    v2.cls.c_str());
             return 2;
         }
-        Plan m = minimise(e, cfg, r.plan, t, 600);
+        // a hanging candidate costs a watchdog period: keep that search short
+        bool slow = v.cls.size() >= 5 && v.cls.compare(v.cls.size() - 5, 5, "/hang") == 0;
+        Plan m = minimise(e, cfg, r.plan, t, slow ? 24 : 600);
         r.plan = m;
         r.expect = v;
         r.expect.op = -1;
@@ -666,6 +683,7 @@ int sim_main(int argc, char** argv, Engine& e)
         return 0;
     }
 
+batch:
     // ---------------------------------------------------------- batch of runs
     uint64_t from = static_cast<uint64_t>(a.geti("from", 0));
     uint64_t to = static_cast<uint64_t>(a.geti("to", 1));
@@ -673,6 +691,9 @@ int sim_main(int argc, char** argv, Engine& e)
     bool isolate = a.has("isolate"); // write every plan before executing it
     std::string planfile = a.get("planfile", outdir + "/current.plan");
     bool dump = a.has("dump-hashes");
+    bool range_mode = a.has("range-mode"); // report violations per run, no dedupe, no minimisation
+    std::string expect_cls = a.get("expect-class"), expect_sig = a.get("expect-sig");
+    int range_hit = 0;
     std::string hashfile = a.get("hashfile");
     uint64_t maxpairs = static_cast<uint64_t>(a.geti("pairs", cfg.tier == "thorough" ? 4 : 1));
     const size_t HASH_CAP = 2000000;
@@ -706,6 +727,14 @@ int sim_main(int argc, char** argv, Engine& e)
             c_foreign++;
             return;
         }
+        if (range_mode)
+        {
+            printf("RANGE-VIOL run=%" PRIu64 " class=%s sig=\"%s\" detail=\"%s\"\n", i, o.v.cls.c_str(),
+                   esc(o.v.sig).c_str(), esc(o.v.detail).c_str());
+            if (i + 1 == to && o.v.cls == expect_cls && (expect_sig.empty() || o.v.sig == expect_sig))
+                range_hit = 1;
+            return;
+        }
         auto key = std::make_pair(o.v.cls, o.v.sig);
         if (seen_classes.count(key))
         {
@@ -721,11 +750,24 @@ int sim_main(int argc, char** argv, Engine& e)
         Outcome again = e.execute(p2, cfg);
         if (!again.violated || !again.v.same_class(o.v) || again.hash != o.hash)
         {
-            printf("HARNESS-NONDETERMINISM run=%" PRIu64 " first=%s/%016" PRIx64
-                   " second=%s/%016" PRIx64 "\n",
-                   i, o.v.cls.c_str(), o.hash, again.violated ? again.v.cls.c_str() : "none",
-                   again.hash);
-            rc = 2;
+            // Re-executing the same plan in this process gives something else: the code under test (or
+            // the harness) carries state from one run to the next.  The driver settles it in fresh
+            // processes: the plan alone, and failing that the range of runs from..i of this worker.
+            ReplayFile nd;
+            nd.engine = e.name();
+            nd.prop = cfg.prop;
+            nd.tier = cfg.tier;
+            nd.seed = cfg.batch_seed;
+            nd.run = static_cast<int64_t>(i);
+            nd.plan = p2;
+            nd.expect = o.v;
+            char ndname[512];
+            snprintf(ndname, sizeof ndname, "%s/nondet-s%" PRIu64 "r%" PRIu64 ".plan", outdir.c_str(), cfg.batch_seed, i);
+            write_file(ndname, replay_to_string(e, nd));
+            printf("NONDET run=%" PRIu64 " from=%" PRIu64 " class=%s sig=\"%s\" plan=%s first=%016" PRIx64 " second=%s/%016" PRIx64 "\n",
+                   i, from, o.v.cls.c_str(), esc(o.v.sig).c_str(), ndname, o.hash,
+                   again.violated ? again.v.cls.c_str() : "none", again.hash);
+            seen_classes.erase(key);
             return;
         }
         Tester t{ e, cfg, o.v, false };
@@ -903,6 +945,11 @@ int sim_main(int argc, char** argv, Engine& e)
         std::vector<uint64_t> v(distinct.begin(), distinct.end());
         std::ofstream f(hashfile, std::ios::binary | std::ios::trunc);
         f.write(reinterpret_cast<const char*>(v.data()), static_cast<std::streamsize>(v.size() * 8));
+    }
+    if (range_mode)
+    {
+        printf("RANGE-DONE hit=%d\n", range_hit);
+        return range_hit ? 1 : 0;
     }
     print_stats(e, evals, runs, distinct.size(), steps, simtime, samples, hash_capped);
     printf("DONE %" PRIu64 " %" PRIu64 "\n", from, to);
